@@ -9,6 +9,8 @@ Require Import ZV.Model.RefSem.
 Require ZV.Model.GenF1.
 Require Import ZV.Model.Bytecode ZV.Model.Verifier ZV.Model.VerifierExamples ZV.Proofs.VerifierProofs.
 Require Import ZV.Model.GenAnnot ZV.Proofs.GenVerifies.
+Require Import ZV.Model.Resident ZV.Proofs.ResidentProofs.
+Require ZV.Proofs.GenF1Proofs ZV.Proofs.GenF1Rest.
 Import ListNotations.
 Local Open Scope nat_scope.
 
@@ -149,3 +151,102 @@ Example effect_ok_squash :
   effect_ok [IPushMarker; IPush; IExplode; ISquash] {| f_varargs := false; f_nargs := 0 |}
     (mkc 3 [Val; Val; Val; Marker; Mark 7] 2 1 0) (mkc 4 [Val; Mark 7] 2 1 0) = true.
 Proof. vm_compute. reflexivity. Qed.
+
+(* ---- for / break / continue inside the proved fragment (semantic form; with C02's gen_sim) ----
+   For EVERY expression of F1 = F0 + for / break / continue (labelled or not, every nesting; cc [] =
+   every jump finds its loop) whose evaluation returns a value, the run of the code that the model of the
+   real generator emits, on the VM model of Model/GenF1.v (values, scope chain, stack marks), ends exactly
+   at the end of the code with that one value on the data stack and the scope chain of entry: the stack
+   marks of all loops, whatever a break / continue jumped away from, and every scope opened inside the
+   loops are gone, for any number of iterations. *)
+Theorem f1_value_run : forall n e env s v s',
+  GenF1.f1 e = true -> cc [] e = true -> eval n env e s = (Done v, s') ->
+  GenF1Proofs.star n (GenF1.gen GenF1.top 0 e) (GenF1.mkVm 0 [] env s)
+       (GenF1.mkVm (length (GenF1.gen GenF1.top 0 e)) [GenF1.SV v] env s').
+Proof. exact GenF1Rest.f1_value_run_lemma. Qed.
+Print Assumptions f1_value_run.
+
+(* ... hence from rest to rest (value-free projection GenF1Rest.proj of the VM state) *)
+Theorem f1_leaves_nothing_behind : forall n e g s v s',
+  GenF1.f1 e = true -> cc [] e = true -> eval n [g] e s = (Done v, s') ->
+  exists final,
+    GenF1Proofs.star n (GenF1.gen GenF1.top 0 e) (GenF1.mkVm 0 [] [g] s) final /\
+    GenF1.pc final = length (GenF1.gen GenF1.top 0 e) /\ GenF1.st final = s' /\
+    at_rest (GenF1Rest.proj (GenF1.mkVm 0 [] [g] s)) = true /\
+    at_rest (run_finish (GenF1Rest.proj final)) = true.
+Proof. exact GenF1Rest.f1_leaves_nothing_behind_lemma. Qed.
+Print Assumptions f1_leaves_nothing_behind.
+
+(* non-vacuity: (for la: [(def i 0) (< i 3) (set i (+ i 1))] (for [(def j 0) (< j 3) (set j (+ j 1))]
+   (trace j) (cond (== j 1) (break la:) nil))) is in F1 and its evaluation returns a value *)
+Example f1_value_run_applies :
+  let e := EFor (Some 500%Z) (EDef 200%Z (EInt 0)) (ECall (EVar 4%Z) [EVar 200%Z; EInt 3])
+                (ESet 200%Z (ECall (EVar 1%Z) [EVar 200%Z; EInt 1]))
+             [EFor None (EDef 201%Z (EInt 0)) (ECall (EVar 4%Z) [EVar 201%Z; EInt 3])
+                   (ESet 201%Z (ECall (EVar 1%Z) [EVar 201%Z; EInt 1]))
+                [ECall (EVar 22%Z) [EVar 201%Z];
+                 ECond [(ECall (EVar 8%Z) [EVar 201%Z; EInt 1], EBreak (Some 500%Z))] ENil]] in
+  GenF1.f1 e = true /\ cc [] e = true /\
+  fst (eval 50 [0] e (init_store 0)) = Done VNil.
+Proof. vm_compute. repeat split; reflexivity. Qed.
+
+(* ---- every interpreter-resident structure, histories with REJECTED texts (Model/Resident.v) ---- *)
+
+(* generator.go:GenerateForLoop pushes its loop record and pops it on EVERY way out: whatever a form
+   contains — loops nested to any depth, a sub-form the generator rejects at any position, a jump to
+   a label that does not exist — env.loopstack after compiling it is env.loopstack before *)
+Theorem compile_keeps_loops : forall t ls, snd (compile t ls) = ls.
+Proof. exact compile_keeps_loops_lemma. Qed.
+Print Assumptions compile_keeps_loops.
+
+(* one EvalString in detail (the real chunk run by the abstract machine, check_fn-verified; run-time
+   failure at an arbitrary machine state followed by restoreControlState; rejection by the generator;
+   rejection by the parser leaving ANY parser state) is the executable summary that bin/check runs
+   against the real interpreter *)
+Theorem eval_text_refines : forall f s s', quiet s = true -> eval_text f s s' ->
+  exec_fate (class_of f) s = Some s'.
+Proof. exact eval_text_refines_lemma. Qed.
+Print Assumptions eval_text_refines.
+
+(* after ANY history of texts — rejected by the parser, rejected by the generator inside loops,
+   failed at run time, successful; any order, any length; the host never calls Clear() — no operand,
+   scope, call frame or loop record is left and nothing is pending in the main function *)
+Theorem resident_history : forall fs s s', quiet s = true -> rhistory fs s s' -> quiet s' = true.
+Proof. exact resident_history_lemma. Qed.
+Print Assumptions resident_history.
+
+Theorem exec_history_quiet : forall ks s s', quiet s = true -> exec_history ks s = Some s' -> quiet s' = true.
+Proof. exact exec_history_quiet_lemma. Qed.
+Print Assumptions exec_history_quiet.
+
+(* after a successful evaluation at the end of any such history EVERY resident structure is at rest,
+   the parser included (no suspended parse, no queued token, lexer in its normal mode) even when
+   earlier texts left a suspended parse behind; it holds the n forms of the last text and no more *)
+Theorem rest_after_success : forall fs n t ch s s1 s',
+  quiet s = true -> rhistory fs s s1 -> eval_text (FOk n t ch) s1 s' ->
+  at_rest_all s' = true /\ p_exprs (i_par s') = n /\ at_rest (cs_of s') = true.
+Proof. exact rest_after_success_lemma. Qed.
+Print Assumptions rest_after_success.
+
+(* whatever the interpreter has been through, the generator accepts or rejects a text exactly as a new
+   interpreter does; in particular break / continue outside any loop are refused *)
+Theorem accepts_as_new : forall fs s s' t, quiet s = true -> rhistory fs s s' ->
+  compile t (i_loops s') = compile t (i_loops i_new).
+Proof. exact accepts_as_new_lemma. Qed.
+Print Assumptions accepts_as_new.
+Theorem jump_outside_refused : forall fs s s' lbl, quiet s = true -> rhistory fs s s' ->
+  fst (compile (TJump lbl) (i_loops s')) = false.
+Proof. exact jump_outside_refused_lemma. Qed.
+Print Assumptions jump_outside_refused.
+
+(* non-vacuity: a rejection three loops deep, a jump to a missing label, a parse failure that leaves a
+   suspended parse, a run-time failure with operands and then a success *)
+Example resident_history_runs :
+  let deep := TFor (Some 1%Z) [TFor None [TNode [TLeaf true; TFor (Some 2%Z) [TJump (Some 1%Z); TLeaf false; TLeaf true]]]; TLeaf true] in
+  let nolabel := TFor (Some 1%Z) [TNode [TJump (Some 9%Z)]] in
+  let good := TFor (Some 1%Z) [TFor None [TJump (Some 1%Z); TJump None]; TLeaf true; TLeaf true; TLeaf true] in
+  compile deep [] = (false, []) /\ compile nolabel [] = (false, []) /\ compile good [] = (true, []) /\
+  option_map obs_of (exec_history [KCompile 1 deep; KParse (mkP true 2 1 3 0); KCompile 2 nolabel;
+                                   KRunErr 1 good [Val; Mark 4; Val]; KOk 3 good] i_new)
+  = Some ((0, 1, 0, 0), 0, (false, 0, 0, 0, 3)).
+Proof. vm_compute. repeat split; reflexivity. Qed.
